@@ -415,7 +415,7 @@ pub fn replay(args: &Args) {
             let header = header_with(root, height);
             *served.resp.lock().unwrap() = AbciQueryResponse {
                 code: 0,
-                key: w.key_a.clone(),
+                key: if case["rkey"] == "KB" { w.key_b.clone() } else { w.key_a.clone() },
                 value: value.clone(),
                 proof_ops: if ops.is_empty() && rng.gen_bool(0.5) { None } else { Some(ProofOps { ops }) },
                 height: height as i64 - 1,
@@ -440,7 +440,7 @@ pub fn replay(args: &Args) {
             let tampers: Vec<String> = case["ops"].as_array().unwrap().iter()
                 .map(|rc| format!("{}:{}:{}:{}", rc["ty"].as_str().unwrap(), rc["key"].as_str().unwrap(), rc["base"].as_str().unwrap(), rc["tamper"].as_str().unwrap()))
                 .collect();
-            let shape = json!({"ops": tampers, "value": case["value"], "root": case["root"]});
+            let shape = json!({"ops": tampers, "value": case["value"], "root": case["root"], "echoed_key": case["rkey"]});
             let nontrivial = demand == 0 && !case["ops"].as_array().unwrap().is_empty();
             sum.case(PROP, nontrivial.then(|| shape.to_string()), || {
                 json!({"case": shape, "demand": demand, "model_verdict": verdict, "observed": detail, "leaves": w.leaves, "stores": w.stores})
